@@ -190,13 +190,14 @@ pub fn run(ctx: &Ctx) -> CheckResult {
         }
         // periods beyond 2^16: still warming up after 65 536 inputs (no padding may enter the statistic)
         for &n in &[65_537usize, 100_000] {
-            let len = 70_000;
+            // the longer stream fills the 100 000-window (a 32-bit triangular number n(n+1)/2 overflows from n = 92 682)
+            let len = if n == 100_000 { 100_010 } else { 70_000 };
             for cfg in subjects(n, false) {
                 if cfg.kind == Kind::Mad && !th {
                     continue; // O(window) per step
                 }
                 let base: std::sync::Arc<Vec<Op>> = std::sync::Arc::new((0..len).map(|i| Op::S(if i % 3 == 0 { 2.5 + (i % 11) as f64 } else { 1000.0 - (i % 7) as f64 * 0.5 })).collect());
-                fams.push(Family { cfg, base, base_name: "zigzag-70000", deviations: vec![], check_at: vec![1, 2, 1000, 65_535, 65_536, 65_537, 65_540, len] });
+                fams.push(Family { cfg, base, base_name: "zigzag-70000", deviations: vec![], check_at: vec![1, 2, 1000, 65_535, 65_536, 65_537, 65_540, 70_000, 92_681, 92_682, 92_683, 100_000, 100_001, len] });
             }
         }
         fam_runs = fams.len() as u64;
@@ -239,7 +240,7 @@ pub fn run(ctx: &Ctx) -> CheckResult {
     }
     res.rule = "case = (configuration, operation history) replayed on a fresh real instance, output of the last op compared with the from-scratch double-double statistic of the last min(t,n) inputs since reset; distinct by construction (tree nodes / de-duplicated concrete states); non-trivial = oracle applicable and history longer than the window (at least one eviction)".into();
     res.bounds = format!(
-        "seq(S_int+reset, {}), seq(S_rough, {}) and seq(S_tiny(2^-60 unit)+reset, same depth), seq(S_ulp = neighbours 1 and 4 ulps apart) for n=1..5 x {{SMA,WMA,SD,MAD,MIN,MAX,BB(mult 2; 0,0.5,3,-1 at depth-2)}}; BFS fixpoint over S_int for SMA/WMA/MAD/MIN/MAX n=1..{}; periods 65537 and 100000 on a 70000-step stream (checked around step 65536); Default::default() instances; seq(S_nearmax = {{1e308, 1.1e308, 1.2e308, 1.05e308}}+reset, 6/8) compared after exact scaling by 2^-600; deviation-bounded families (4 base streams, k<=1{} deviations at every position; reset() at 7 positions) for periods {:?}",
+        "seq(S_int+reset, {}), seq(S_rough, {}) and seq(S_tiny(2^-60 unit)+reset, same depth), seq(S_ulp = neighbours 1 and 4 ulps apart) for n=1..5 x {{SMA,WMA,SD,MAD,MIN,MAX,BB(mult 2; 0,0.5,3,-1 at depth-2)}}; BFS fixpoint over S_int for SMA/WMA/MAD/MIN/MAX n=1..{}; periods 65537 and 100000 on 70000 / 100010-step streams (checked around steps 65536, 92682 and 100000); Default::default() instances; seq(S_nearmax = {{1e308, 1.1e308, 1.2e308, 1.05e308}}+reset, 6/8) compared after exact scaling by 2^-600; deviation-bounded families (4 base streams, k<=1{} deviations at every position; reset() at 7 positions) for periods {:?}",
         d_int,
         d_rough,
         d_bfs_n,
